@@ -116,6 +116,8 @@ struct ThreadSt {
     state: TState,
     spawned_by_op: i64,
     exit: String,
+    /// number of MessageBoundary points the main thread had passed when this thread exited
+    exit_after_msgs: i64,
     crash: bool,
     /// virtual time (µs) of this thread
     vt: u64,
@@ -457,6 +459,7 @@ impl Sched for TokenSched {
             state: TState::NotStarted,
             spawned_by_op: s.msgs_seen as i64 - 1,
             exit: String::new(),
+            exit_after_msgs: -1,
             crash,
             vt: parent_vt + dur,
             prio,
@@ -508,6 +511,7 @@ fn thread_exit(id: usize, how: String) {
     s.drain_output(id);
     s.threads[id].state = TState::Exited;
     s.threads[id].exit = if s.threads[id].crash && id != 0 { "injected_crash".into() } else { how };
+    s.threads[id].exit_after_msgs = s.msgs_seen as i64;
     let vt = s.threads[id].vt;
     s.sim_time_us = s.sim_time_us.max(vt);
     if s.threads.iter().all(|t| t.state == TState::Exited) {
@@ -652,6 +656,7 @@ fn run_one(spec: &Value) -> Value {
         state: TState::NotStarted,
         spawned_by_op: -1,
         exit: String::new(),
+        exit_after_msgs: -1,
         crash: false,
         vt: 0,
         prio: prio0,
@@ -764,7 +769,7 @@ fn run_one(spec: &Value) -> Value {
         .iter()
         .enumerate()
         .skip(1)
-        .map(|(i, t)| json!({"id": i, "spawned_by_op": t.spawned_by_op, "exit": t.exit, "vt_us": t.vt}))
+        .map(|(i, t)| json!({"id": i, "spawned_by_op": t.spawned_by_op, "exit": t.exit, "exit_after_msgs": t.exit_after_msgs, "vt_us": t.vt}))
         .collect();
     let decisions: Vec<Value> = sim
         .trace
